@@ -610,3 +610,26 @@ def _(self, start, end):
     ensures(forall(lambda k: implies(0 <= k and k < old(pos(self, start)), sel(self.g_view, k) == sel(old(self.g_view), k)), sel(self.g_view, k)))
     ensures(forall(lambda k: implies(old(pos(self, start)) <= k and k < self.g_vlen, sel(self.g_view, k) == sel(old(self.g_view), k + (old(ite(end is None, pos(self, start), pos(self, end))) + 1 - old(pos(self, start))))), sel(self.g_view, k)))
     ensures(old(start.store_handle != None))
+
+# ---- _StoreBlock.extend (not called by the current code; under contract so that a caller that starts using it is checked against what it really does):
+# appends the tokens and gives exactly the APPENDED tokens fresh handles (self, position); the handles of the tokens that were already there are not touched
+@contract('_StoreBlock.extend')
+def _(self, tokens):
+    types(tokens='list[Token]')
+    requires(self != None and self.tokens != None and self.size != None and tokens != None and tokens is not self.tokens)
+    requires(forall(lambda j: implies(0 <= j and j < len(tokens), tokens[j] != None and tokens[j].size != None and tokens[j].size is not self.size), tokens[j]))
+    requires(forall(lambda j, k: implies(0 <= j and j < k and k < len(tokens), tokens[j] != tokens[k]), (tokens[j], tokens[k])))
+    modifies('list[Token]@self.tokens', 'Token.store_handle', '_StoreHandle.block@fresh', '_StoreHandle.index@fresh', 'Position.line@self.size', 'Position.column@self.size', '_StoreBlock.last_newline_index@self')
+    invariant(0, self.tokens is pre(self.tokens) and self.size is pre(self.size) and len(self.tokens) == pre(len(self.tokens)) and elems(self.tokens) == pre(elems(self.tokens)) and start == pre(start) and start == old(len(self.tokens)) and len(self.tokens) == start + len(tokens),
+                 forall(lambda j, k: implies(start <= j and j < k and k < len(self.tokens), self.tokens[j] != self.tokens[k]), (self.tokens[j], self.tokens[k])),
+                 forall(lambda j: implies(start <= j and j < start + K, self.tokens[j].store_handle != None and fresh(self.tokens[j].store_handle)
+                        and self.tokens[j].store_handle.block is self and self.tokens[j].store_handle.index == j), self.tokens[j]),
+                 forall(lambda t: as_ref(t, 'Token').store_handle is pre(as_ref(t, 'Token').store_handle) or exists(lambda j: start <= j and j < start + K and self.tokens[j] == t)),
+                 forall(lambda h: implies(0 < h and h < old_alloc(), as_ref(h, '_StoreHandle').block is old(as_ref(h, '_StoreHandle').block) and as_ref(h, '_StoreHandle').index == old(as_ref(h, '_StoreHandle').index))))
+    ensures(len(self.tokens) == old(len(self.tokens)) + len(tokens))
+    ensures(forall(lambda k: implies(0 <= k and k < old(len(self.tokens)), self.tokens[k] == old(self.tokens[k])), self.tokens[k]))
+    ensures(forall(lambda k: implies(0 <= k and k < len(tokens), self.tokens[old(len(self.tokens)) + k] == tokens[k]), tokens[k]))
+    ensures(forall(lambda j: implies(old(len(self.tokens)) <= j and j < len(self.tokens), self.tokens[j].store_handle != None and fresh(self.tokens[j].store_handle)
+                   and self.tokens[j].store_handle.block is self and self.tokens[j].store_handle.index == j), self.tokens[j]))
+    ensures(forall(lambda t: as_ref(t, 'Token').store_handle is old(as_ref(t, 'Token').store_handle) or exists(lambda j: old(len(self.tokens)) <= j and j < len(self.tokens) and self.tokens[j] == t)))
+    ensures(forall(lambda h: implies(0 < h and h < old_alloc(), as_ref(h, '_StoreHandle').block is old(as_ref(h, '_StoreHandle').block) and as_ref(h, '_StoreHandle').index == old(as_ref(h, '_StoreHandle').index))))
